@@ -3,7 +3,7 @@
 From Coq Require Import ZArith List Bool Lia ZifyBool.
 From Emmet Require Import lib.Base model.MarkupTokenizer model.MarkupParser model.MarkupConvert
      model.OutStream model.FormatHtml proofs.IndentStream proofs.HtmlEvents proofs.OutStreamProofs proofs.FormatSteps
-     proofs.FormatReach proofs.FormatProofs proofs.FormatChunks proofs.FormatDepth proofs.FormatLines.
+     proofs.FormatReach proofs.FormatProofs proofs.FormatChunks proofs.FormatDepth proofs.FormatLines proofs.FormatGrows.
 Import ListNotations.
 Local Open Scope Z_scope.
 
@@ -76,6 +76,48 @@ Fixpoint depth_node (c : oconfig) (n : anode) : bool :=
       && forallb (depth_node c) ch
   end.
 Definition depth_dom (c : oconfig) (forest : list anode) : bool := forallb (depth_node c) forest.
+
+
+(* ---------------------------------------------------------------- domain of close_aligned *)
+(* the closing tag of the element goes on a line of its own: its last child is line-broken, or it has no children
+   and its text has a line break / it is an empty leaf under formatLeafNode or formatForce *)
+Definition closes_own_line (c : oconfig) (n : anode) : bool :=
+  last_formatted c n
+  || (no_children n
+      && (if truthy_l (an_value n) then existsb has_newline (oval (an_value n))
+          else oc_format_leaf c || mem_str (match an_name n with Some x => x | None => [] end) (oc_format_force c))).
+(* an element whose closing tag goes on a line of its own is line-broken itself, or is the very first node.
+   The excluded shapes are those of the listed finding C12:close-aligned-inline-leaf-inner-format (an inline leaf with
+   inner formatting that is not line-broken) and inline elements that are not line-broken although their last child is. *)
+Definition align_here (c : oconfig) (parent : option anode) (n : anode) (idx : nat) (items : list anode) : bool :=
+  negb (truthy_s (an_name n)) || self_closed n || negb (closes_own_line c n)
+  || should_format c parent n idx items
+  || (match parent with None => true | Some _ => false end && Nat.eqb idx 0).
+Fixpoint align_node (c : oconfig) (parent : option anode) (node : anode) (idx : nat) (items : list anode) {struct node} : bool :=
+  align_here c parent node idx items &&
+  (fix go (i : nat) (l : list anode) : bool :=
+     match l with
+     | [] => true
+     | ch :: r => align_node c (Some node) ch i (an_children node) && go (S i) r
+     end) O (an_children node).
+Fixpoint align_walk (c : oconfig) (parent : option anode) (items : list anode) (i : nat) (l : list anode) : bool :=
+  match l with
+  | [] => true
+  | ch :: r => align_node c parent ch i items && align_walk c parent items (S i) r
+  end.
+Definition align_dom (c : oconfig) (forest : list anode) : bool := align_walk c None forest O forest.
+
+Lemma align_go_walk c parent items : forall l i,
+  (fix go (i : nat) (l : list anode) : bool :=
+     match l with
+     | [] => true
+     | ch :: r => align_node c parent ch i items && go (S i) r
+     end) i l = align_walk c parent items i l.
+Proof. induction l as [|x l IH]; intros i; [reflexivity|]. cbn [align_walk]. rewrite <- IH. reflexivity. Qed.
+Lemma align_node_eq c parent node idx items :
+  align_node c parent node idx items =
+  align_here c parent node idx items && align_walk c (Some node) (an_children node) O (an_children node).
+Proof. rewrite <- align_go_walk. destruct node; reflexivity. Qed.
 
 Lemma depth_node_eq c n :
   depth_node c n =
@@ -176,6 +218,45 @@ Qed.
 Lemma depth_forest c l d : depth_after d (flat_map (tree_events c) l) = d.
 Proof. induction l as [|x l IH]; [reflexivity|]. cbn [flat_map]. rewrite depth_after_app, depth_tree. exact IH. Qed.
 
+
+(* the number of open elements never falls below its start value inside the events of a forest *)
+Definition nonneg (X : list sev) : Prop := forall d t, depth_after d (firstn t X) >= d.
+Lemma nonneg_app a b : nonneg a -> nonneg b -> nonneg (a ++ b).
+Proof.
+  intros Ha Hb d t. rewrite firstn_app, depth_after_app.
+  pose proof (Ha d t). pose proof (Hb (depth_after d (firstn t a)) (t - length a)%nat). lia.
+Qed.
+Lemma nonneg_nil : nonneg [].
+Proof. intros d t. destruct t; cbn; lia. Qed.
+Lemma nonneg_tree c : forall n, nonneg (tree_events c n).
+Proof.
+  induction n as [nm v rp at_ ch sc IH] using anode_ind'.
+  assert (G : nonneg (flat_map (tree_events c) ch)).
+  { clear -IH. induction ch as [|x ch IHch]; [apply nonneg_nil|]. inversion IH; subst. cbn [flat_map].
+    apply nonneg_app; [assumption|apply IHch; assumption]. }
+  rewrite tree_events_eq. cbn [an_name an_children an_value].
+  destruct nm as [[|n0 nm']|].
+  - destruct (truthy_l v); [exact G|apply nonneg_nil].
+  - destruct (self_closed _).
+    + intros d [|[|t]]; cbn; lia.
+    + intros d [|t]; [cbn; lia|]. cbn [firstn depth_after]. rewrite firstn_app, depth_after_app.
+      pose proof (G (d + 1) t) as G1.
+      destruct (t - length (flat_map (tree_events c) ch))%nat as [|u]; [cbn [firstn depth_after]; lia|].
+      cbn [firstn depth_after]. destruct u; cbn [firstn depth_after]; lia.
+  - destruct (truthy_l v); [exact G|apply nonneg_nil].
+Qed.
+Lemma nonneg_forest c l : nonneg (flat_map (tree_events c) l).
+Proof. induction l as [|x l IH]; [apply nonneg_nil|]. cbn [flat_map]. apply nonneg_app; [apply nonneg_tree|exact IH]. Qed.
+
+Lemma Dp_prefix E E0 K E1 t : E = E0 ++ K ++ E1 -> nonneg K -> (t <= length K)%nat ->
+  Dp E (length E0 + t) >= Dp E (length E0).
+Proof.
+  intros -> HK Ht. unfold Dp. rewrite firstn_app_2, depth_after_app.
+  replace (firstn (length E0) (E0 ++ K ++ E1)) with E0.
+  2:{ rewrite firstn_app, firstn_all, Nat.sub_diag. cbn [firstn]. rewrite app_nil_r. reflexivity. }
+  rewrite firstn_app. replace (t - length K)%nat with O by lia. cbn [firstn]. rewrite app_nil_r. apply HK.
+Qed.
+
 Lemma Dp_split E E0 X E1 : E = E0 ++ X ++ E1 -> Dp E (length E0 + length X) = depth_after (Dp E (length E0)) X.
 Proof.
   intros ->. unfold Dp. rewrite app_assoc, firstn_app.
@@ -202,8 +283,11 @@ Qed.
 Lemma Hnl : nlt (nlb f) = true. Proof. exact (proj1 Hcfg_parts). Qed.
 Lemma Hind : nlt (of_indent f) = true. Proof. exact (proj1 (proj2 Hcfg_parts)). Qed.
 
-Notation LinesE := (Lines f E).
-Definition LI (st : fstate) (n : nat) (p : option Z) : Prop := LinesE (O, None) (fchunks st) (n, p).
+(* [al]: also keep track of the alignment of closing tags (FormatLines.aligned_at) *)
+Variable al : bool.
+Definition APa (P : list chunk) (k : Z) : Prop := al = true -> aligned_at f E P k.
+Notation LinesE := (Lines f E APa).
+Definition LI (st : fstate) (n : nat) (p : option Z) : Prop := LinesE [] (O, None) (fchunks st) (n, p).
 Notation PO := (Popen E).
 Notation PC := (Pclose E).
 Notation D := (Dp E).
@@ -211,9 +295,9 @@ Notation D := (Dp E).
 (* ---------------------------------------------------------------- plain chunks: no line break, no tag *)
 Definition plain (x : chunk) : bool := negb (is_nl x) && match chunk_tags x with [] => true | _ => false end.
 
-Lemma Lines_plain s0 : forall Y X n p,
-  LinesE s0 X (n, p) -> PO n p -> forallb plain Y = true ->
-  exists p', LinesE s0 (X ++ Y) (n, p') /\ PO n p' /\ (p = None -> p' = None)
+Lemma Lines_plain P0 s0 : forall Y X n p,
+  LinesE P0 s0 X (n, p) -> PO n p -> forallb plain Y = true ->
+  exists p', LinesE P0 s0 (X ++ Y) (n, p') /\ PO n p' /\ (p = None -> p' = None)
              /\ (match rev Y with x :: _ => transparent x = false | [] => False end -> p' = None).
 Proof.
   induction Y as [|x Y IH]; intros X n p H Hp HY.
@@ -221,7 +305,7 @@ Proof.
   - cbn [forallb] in HY. apply andb_true_iff in HY. destruct HY as [Hx HY].
     unfold plain in Hx. apply andb_true_iff in Hx. destruct Hx as [Hx1 Hx2]. apply negb_true_iff in Hx1.
     assert (Ht : chunk_tags x = []) by (destruct (chunk_tags x); [reflexivity|discriminate]).
-    destruct (Lines_text f E s0 X n p x H Hp Hx1 Ht) as [p1 [H1 [Hp1 [Hv1 Hn1]]]].
+    destruct (Lines_text f E APa P0 s0 X n p x H Hp Hx1 Ht) as [p1 [H1 [Hp1 [Hv1 Hn1]]]].
     destruct (IH (X ++ [x]) n p1 H1 Hp1 HY) as [p2 [H2 [Hp2 [Hn2 Hv2]]]].
     exists p2. rewrite <- app_assoc in H2. cbn [app] in H2. repeat split; try assumption.
     + intros e. apply Hn2, Hn1, e.
@@ -279,7 +363,7 @@ Lemma LI_PL st st' n p :
   LI st n p -> PO n p -> PL st st' -> exists p', LI st' n p' /\ PO n p' /\ (p = None -> p' = None).
 Proof.
   intros H Hp [_ [Y [EY PY]]]. unfold LI. rewrite EY.
-  destruct (Lines_plain (O, None) Y (fchunks st) n p H Hp PY) as [p' [H1 [H2 [H3 _]]]].
+  destruct (Lines_plain [] (O, None) Y (fchunks st) n p H Hp PY) as [p' [H1 [H2 [H3 _]]]].
   exists p'. repeat split; assumption.
 Qed.
 
@@ -373,17 +457,17 @@ Proof.
 Qed.
 
 (* ---------------------------------------------------------------- text with line breaks *)
-Lemma Lines_lines s0 L n : L = D n -> forall ls X p,
-  LinesE s0 X (n, p) -> PO n p -> Forall (fun l => nlt l = true) ls ->
-  exists p', LinesE s0 (X ++ flat_map (line_chunks f L) ls) (n, p') /\ PO n p' /\ (ls = [] -> p' = p)
+Lemma Lines_lines P0 s0 L n : L = D n -> forall ls X p,
+  LinesE P0 s0 X (n, p) -> PO n p -> Forall (fun l => nlt l = true) ls ->
+  exists p', LinesE P0 s0 (X ++ flat_map (line_chunks f L) ls) (n, p') /\ PO n p' /\ (ls = [] -> p' = p)
              /\ (match rev ls with (_ :: _) :: _ => True | _ => False end -> p' = None).
 Proof.
   intros HL. subst L. induction ls as [|l ls IH]; intros X p H Hp Hls.
   - exists p. cbn [flat_map]. rewrite app_nil_r. repeat split; try assumption. intros [].
   - pose proof (Forall_inv Hls) as Hl; pose proof (Forall_inv_tail Hls) as Hls'; cbv beta in Hl.
-    pose proof (Lines_nl f E s0 X n p (D n) (Some None) H Hp) as H1. cbn [units] in H1.
+    pose proof (Lines_nl f E APa P0 s0 X n p (D n) (Some None) H Hp) as H1. cbn [units] in H1.
     assert (Hp1 : PO n (Some (D n))) by (intros k Hk; injection Hk as <-; reflexivity).
-    destruct (Lines_text f E s0 _ n _ (CT false l) H1 Hp1 eq_refl (nlt_text_tag l Hl)) as [p2 [H2 [Hp2 [Hv2 _]]]].
+    destruct (Lines_text f E APa P0 s0 _ n _ (CT false l) H1 Hp1 eq_refl (nlt_text_tag l Hl)) as [p2 [H2 [Hp2 [Hv2 _]]]].
     destruct (IH _ p2 H2 Hp2 Hls') as [p3 [H3 [Hp3 [He3 Hv3]]]].
     exists p3. cbn [flat_map]. unfold line_chunks at 1. rewrite <- !app_assoc in *. cbn [app] in *.
     repeat split; try assumption; [discriminate|].
@@ -394,25 +478,25 @@ Proof.
       * cbn [app] in Hl3. exact Hl3.
 Qed.
 
-Lemma Lines_string s0 L n s X p :
-  LinesE s0 X (n, p) -> PO n p -> nolt s = true -> (L = D n \/ nocrlf s = true) ->
-  exists p', LinesE s0 (X ++ string_chunks f L s) (n, p') /\ PO n p'
+Lemma Lines_string P0 s0 L n s X p :
+  LinesE P0 s0 X (n, p) -> PO n p -> nolt s = true -> (L = D n \/ nocrlf s = true) ->
+  exists p', LinesE P0 s0 (X ++ string_chunks f L s) (n, p') /\ PO n p'
              /\ (p = None -> nocrlf s = true -> p' = None) /\ (str_ends_visible s = true -> p' = None).
 Proof.
   intros H Hp Hs HL. destruct (nocrlf s) eqn:Ec.
   - rewrite (string_chunks_nocrlf L s Ec). unfold str_ends_visible. rewrite (split_crlf_nocrlf s Ec).
     destruct s as [|ch s].
     + exists p. rewrite app_nil_r. repeat split; try assumption; [intros e _; exact e|discriminate].
-    + destruct (Lines_text f E s0 X n p (CT false (ch :: s)) H Hp eq_refl (nlt_text_tag _ (nolt_nlt _ Hs)))
+    + destruct (Lines_text f E APa P0 s0 X n p (CT false (ch :: s)) H Hp eq_refl (nlt_text_tag _ (nolt_nlt _ Hs)))
         as [p1 [H1 [Hp1 [Hv1 Hn1]]]].
       exists p1. repeat split; try assumption; [intros e _; apply Hn1, e|intros _; apply Hv1; reflexivity].
   - destruct HL as [HL|HL]; [|discriminate]. unfold string_chunks, str_ends_visible.
     pose proof (split_crlf_nolt s Hs) as Hl. destruct (split_crlf s) as [|l0 ls]; [|pose proof (Forall_inv Hl) as Hl0; pose proof (Forall_inv_tail Hl) as Hls; cbv beta in Hl0].
     + exists p. rewrite app_nil_r. repeat split; try assumption; discriminate.
-    + destruct (Lines_text f E s0 X n p (CT false l0) H Hp eq_refl (nlt_text_tag _ (nolt_nlt _ Hl0)))
+    + destruct (Lines_text f E APa P0 s0 X n p (CT false l0) H Hp eq_refl (nlt_text_tag _ (nolt_nlt _ Hl0)))
         as [p1 [H1 [Hp1 [Hv1 _]]]].
       assert (Hls' : Forall (fun l => nlt l = true) ls) by (eapply Forall_impl; [|exact Hls]; intros a Ha; apply nolt_nlt, Ha).
-      destruct (Lines_lines s0 L n HL ls _ p1 H1 Hp1 Hls') as [p2 [H2 [Hp2 [He2 Hv2]]]].
+      destruct (Lines_lines P0 s0 L n HL ls _ p1 H1 Hp1 Hls') as [p2 [H2 [Hp2 [He2 Hv2]]]].
       exists p2. rewrite <- app_assoc in H2. cbn [app] in H2. repeat split; try assumption; [discriminate|].
       cbn [rev]. intros Hv. destruct ls as [|l2 ls2].
       * cbn [rev app] in Hv. rewrite (He2 eq_refl). apply Hv1. destruct l0; [discriminate|reflexivity].
@@ -421,9 +505,9 @@ Proof.
         -- cbn [app] in Hv. destruct y; [discriminate|exact I].
 Qed.
 
-Lemma Lines_tokens s0 L F n : forall toks X p,
-  LinesE s0 X (n, p) -> PO n p -> toks_nolt toks = true -> (L = D n \/ toks_nocrlf toks = true) ->
-  exists p', LinesE s0 (X ++ token_chunks f L F toks) (n, p') /\ PO n p'
+Lemma Lines_tokens P0 s0 L F n : forall toks X p,
+  LinesE P0 s0 X (n, p) -> PO n p -> toks_nolt toks = true -> (L = D n \/ toks_nocrlf toks = true) ->
+  exists p', LinesE P0 s0 (X ++ token_chunks f L F toks) (n, p') /\ PO n p'
              /\ (p = None -> toks_nocrlf toks = true -> p' = None) /\ (ends_visible toks = true -> p' = None)
              /\ (toks = [] -> p' = p).
 Proof.
@@ -434,11 +518,11 @@ Proof.
     { destruct HL as [HL|HL]; [left; exact HL|right]. cbn [toks_nocrlf forallb] in HL. apply andb_true_iff in HL. apply HL. }
     assert (HL2 : L = D n \/ toks_nocrlf ts = true).
     { destruct HL as [HL|HL]; [left; exact HL|right]. cbn [toks_nocrlf forallb] in HL. apply andb_true_iff in HL. apply HL. }
-    assert (G : exists p1, LinesE s0 (X ++ match t with VStr s => string_chunks f L s | VField i nm => [CF (F + i)%N nm] end) (n, p1)
+    assert (G : exists p1, LinesE P0 s0 (X ++ match t with VStr s => string_chunks f L s | VField i nm => [CF (F + i)%N nm] end) (n, p1)
                            /\ PO n p1 /\ (p = None -> tok_nocrlf t = true -> p1 = None) /\ (tok_ends_visible t = true -> p1 = None)).
     { destruct t as [s|i nm].
       - apply Lines_string; assumption.
-      - destruct (Lines_text f E s0 X n p (CF (F + i)%N nm) H Hp eq_refl eq_refl) as [p1 [H1 [Hp1 [Hv1 Hnn1]]]].
+      - destruct (Lines_text f E APa P0 s0 X n p (CF (F + i)%N nm) H Hp eq_refl eq_refl) as [p1 [H1 [Hp1 [Hv1 Hnn1]]]].
         exists p1. repeat split; try assumption; [intros e _; apply Hnn1, e|intros _; apply Hv1; reflexivity]. }
     destruct G as [p1 [H1 [Hp1 [Hc1 Hv1]]]].
     destruct (IH _ p1 H1 Hp1 Hn2 HL2) as [p2 [H2 [Hp2 [Hc2 [Hv2 He2]]]]].
@@ -463,7 +547,7 @@ Lemma LI_string st n p s :
   exists p', LI (push_str c s st) n p' /\ PO n p' /\ (p = None -> nocrlf s = true -> p' = None).
 Proof.
   unfold LI. rewrite ch_push_str. intros H Hp Hs HL.
-  destruct (Lines_string (O, None) (lvl st) n s _ p H Hp Hs HL) as [p' [H1 [H2 [H3 _]]]]. exists p'. repeat split; assumption.
+  destruct (Lines_string [] (O, None) (lvl st) n s _ p H Hp Hs HL) as [p' [H1 [H2 [H3 _]]]]. exists p'. repeat split; assumption.
 Qed.
 
 Lemma LI_level st n p d : LI st n p -> LI (map_out (fun o => os_add_level o d) st) n p.
@@ -480,7 +564,7 @@ Lemma LI_level_newline st n p d :
   LI st n p -> PO n p -> LI (level_newline c d st) n (Some (lvl st + d)).
 Proof.
   unfold LI. rewrite ch_level_newline. intros H Hp.
-  pose proof (Lines_nl f E (O, None) _ n p (lvl st + d) (int_ind (lvl st + d)) H Hp) as H1.
+  pose proof (Lines_nl f E APa [] (O, None) _ n p (lvl st + d) (int_ind (lvl st + d)) H Hp) as H1.
   rewrite units_int_ind in H1. exact H1.
 Qed.
 
@@ -489,7 +573,7 @@ Lemma LI_newline_int st n p (x : Z) :
   LI (map_out (fun o => os_push_newline_int (oc_fmt c) o (os_level o - x)) st) n (Some (lvl st - x)).
 Proof.
   unfold LI, fchunks, map_out, os_push_newline_int. cbn [fs_out]. rewrite ch_push_newline. intros H Hp.
-  pose proof (Lines_nl f E (O, None) _ n p (os_level (fs_out st)) (int_ind (os_level (fs_out st) - x)) H Hp) as H1.
+  pose proof (Lines_nl f E APa [] (O, None) _ n p (os_level (fs_out st)) (int_ind (os_level (fs_out st) - x)) H Hp) as H1.
   rewrite units_int_ind in H1. exact H1.
 Qed.
 
@@ -545,10 +629,11 @@ Qed.
 Lemma LI_el_value node st m1 :
   LI st m1 None -> D m1 = lvl st + 1 -> oval_nolt (an_value node) = true ->
   exists p', LI (el_value c node st) m1 p' /\ (if no_children node then PC m1 p' else PO m1 p')
-             /\ (truthy_l (an_value node) = false -> p' = None).
+             /\ (truthy_l (an_value node) = false -> p' = None)
+             /\ (existsb has_newline (oval (an_value node)) = false -> p' = None).
 Proof.
   intros H HD Hv. unfold el_value, no_children.
-  destruct (an_value node) as [[|v0 value]|] eqn:Ev.
+  destruct (an_value node) as [[|v0 value]|] eqn:Ev; cbn [oval].
   - exists None. repeat split; try assumption. destruct (an_children node); [apply Pclose_none|apply Popen_none].
   - cbn [oval_nolt] in Hv. rewrite (block_tag_nolt _ Hv), orb_false_r.
     destruct (existsb has_newline (v0 :: value)) eqn:Enl.
@@ -557,33 +642,36 @@ Proof.
       destruct (LI_tokens _ m1 _ (v0 :: value) H1 Hp1 Hv) as [p2 [H2 [Hp2 _]]].
       { left. rewrite lvl_level_newline. lia. }
       destruct (an_children node) as [|c0 ch].
-      * pose proof (LI_level_newline _ m1 p2 (-1) H2 Hp2) as H3. eexists. split; [exact H3|]. split; [|discriminate].
+      * pose proof (LI_level_newline _ m1 p2 (-1) H2 Hp2) as H3. eexists. split; [exact H3|]. split; [|split; discriminate].
         apply PC_some. rewrite lvl_push_tokens, lvl_level_newline. lia.
-      * exists p2. split; [apply LI_level, H2|]. split; [exact Hp2|discriminate].
+      * exists p2. split; [apply LI_level, H2|]. split; [exact Hp2|split; discriminate].
     + destruct (LI_tokens st m1 None (v0 :: value) H (Popen_none E m1) Hv) as [p2 [H2 [Hp2 [Hn2 _]]]].
       { right. apply has_newline_nocrlf, Enl. }
       rewrite (Hn2 eq_refl (has_newline_nocrlf _ Enl)) in *.
-      exists None. split; [exact H2|]. split; [|discriminate]. destruct (an_children node); [apply Pclose_none|apply Popen_none].
+      exists None. split; [exact H2|]. split; [|split; [discriminate|reflexivity]].
+      destruct (an_children node); [apply Pclose_none|apply Popen_none].
   - exists None. repeat split; try assumption. destruct (an_children node); [apply Pclose_none|apply Popen_none].
 Qed.
 
 (* the tabstop of an empty leaf *)
 Lemma LI_el_leaf nm node st m1 p :
   LI st m1 p -> D m1 = lvl st + 1 -> PC m1 p -> (truthy_l (an_value node) = false -> no_children node = true -> p = None) ->
-  exists p', LI (el_leaf c nm node st) m1 p' /\ PC m1 p'.
+  exists p', LI (el_leaf c nm node st) m1 p' /\ PC m1 p'
+             /\ (p = None -> truthy_l (an_value node) = true \/ (oc_format_leaf c || mem_str nm (oc_format_force c)) = false -> p' = None).
 Proof.
   intros H HD Hp Hnone. unfold el_leaf. fold (no_children node).
   destruct (negb (truthy_l (an_value node)) && no_children node) eqn:Eb;
-    [|exists p; split; assumption].
+    [|exists p; split; [assumption|split; [assumption|exact (fun e _ => e)]]].
   apply andb_true_iff in Eb. destruct Eb as [Eb Eb2]. apply negb_true_iff in Eb. rewrite (Hnone Eb Eb2) in *.
   destruct (oc_format_leaf c || mem_str nm (oc_format_force c)).
   - pose proof (LI_level_newline st m1 None 1 H (Popen_none E m1)) as H1.
     assert (Hp1 : PO m1 (Some (lvl st + 1))) by (apply PO_some; lia).
     destruct (LI_tokens _ m1 _ caret H1 Hp1 eq_refl (or_intror eq_refl)) as [p2 [H2 [Hp2 _]]].
-    pose proof (LI_level_newline _ m1 p2 (-1) H2 Hp2) as H3. eexists. split; [exact H3|].
-    apply PC_some. rewrite lvl_push_tokens, lvl_level_newline. lia.
+    pose proof (LI_level_newline _ m1 p2 (-1) H2 Hp2) as H3. eexists. split; [exact H3|]. split.
+    + apply PC_some. rewrite lvl_push_tokens, lvl_level_newline. lia.
+    + intros _ [Ht|Hf]; [rewrite Eb in Ht|]; discriminate.
   - destruct (LI_tokens st m1 None caret H (Popen_none E m1) eq_refl (or_intror eq_refl)) as [p2 [H2 [_ [Hn2 _]]]].
-    rewrite (Hn2 eq_refl eq_refl) in H2. exists None. split; [exact H2|apply Pclose_none].
+    rewrite (Hn2 eq_refl eq_refl) in H2. exists None. split; [exact H2|split; [apply Pclose_none|reflexivity]].
 Qed.
 
 (* push_snippet: text, children, rest of the text *)
@@ -694,6 +782,9 @@ Qed.
 Lemma good_self_close : good (self_close c ++ [c_gt]) = true.
 Proof. unfold self_close. destruct (str_eqb _ s_xhtml); [reflexivity|]. destruct (str_eqb _ s_xml); reflexivity. Qed.
 
+Lemma LI_ntags st n p : LI st n p -> n = ntags (fchunks st).
+Proof. intros H. apply (Lines_ntags f E APa Hnl Hind) in H. cbn [fst] in H. lia. Qed.
+
 Lemma LI_el_named x nm node next st m p E0 E1 :
   an_name node = Some (x :: nm) ->
   good (x :: nm) = true -> name_start (x :: nm) = true ->
@@ -702,27 +793,32 @@ Lemma LI_el_named x nm node next st m p E0 E1 :
   last_ok c node = true -> snippet_ok c node = true ->
   E = E0 ++ tree_events c node ++ E1 -> m = length E0 ->
   LI st m p -> PO m p -> lvl st = D m ->
-  keeps_lvl next -> (an_children node = [] -> forall s, next s = s) ->
+  keeps_lvl next -> grows_fn next -> (an_children node = [] -> forall s, next s = s) ->
   (self_closed node = false -> next_ok node next (S m)) ->
+  (al = true -> self_closed node = false -> closes_own_line c node = true -> line_of f (fchunks st) (D m)) ->
   LI (el_named c (x :: nm) node next st) (m + length (tree_events c node)) None.
 Proof.
-  intros En Hgn Hns Hv Ha Hlast Hsn HE Hm H Hp HL Hk Hnil Hnext.
+  intros En Hgn Hns Hv Ha Hlast Hsn HE Hm H Hp HL Hk Hgr Hnil Hnext Hal.
   apply good_parts in Hgn. destruct Hgn as [Hnolt Hnocrlf].
   set (name := tag_name c (x :: nm)).
   assert (Nb : nocrlf name = true) by (unfold name; rewrite nocrlf_tag_name; exact Hnocrlf).
   assert (Nl : nolt name = true) by (unfold name; rewrite nolt_tag_name; exact Hnolt).
   assert (Ns : name_start name = true) by (unfold name; rewrite name_start_tag_name; exact Hns).
   assert (Nn : name <> []) by (apply tag_name_nonempty; discriminate).
+  assert (Nt : text_tag (c_lt :: name) = [TOpen name]) by (apply text_tag_open; assumption).
   unfold el_named. cbv zeta.
   (* "<name" and the attributes *)
+  assert (Hopen : fchunks (push_str c (c_lt :: name) st) = fchunks st ++ [CT false (c_lt :: name)]).
+  { rewrite ch_push_str, string_chunks_nocrlf by (cbn [nocrlf forallb]; fold (nocrlf name); rewrite Nb; reflexivity). reflexivity. }
   assert (Ho : LI (el_open c (x :: nm) node st) (S m) None).
   { unfold el_open. rewrite comment_off. fold name.
     assert (H1 : LI (push_str c (c_lt :: name) st) (S m) None).
-    { unfold LI. rewrite ch_push_str, string_chunks_nocrlf
-        by (cbn [nocrlf forallb]; fold (nocrlf name); rewrite Nb; reflexivity).
-      apply (Lines_open f E (O, None) _ m p name H Hp). apply text_tag_open; assumption. }
+    { unfold LI. rewrite Hopen. apply (Lines_open f E APa [] (O, None) _ m p name H Hp Nt). }
     destruct (LI_PL _ _ (S m) None H1 (Popen_none E _) (PL_el_attrs node _ Ha)) as [p' [H2 [_ Hn2]]].
     rewrite (Hn2 eq_refl) in H2. exact H2. }
+  assert (Hgo : exists B, fchunks (el_open c (x :: nm) node st) = fchunks st ++ CT false (c_lt :: name) :: B).
+  { unfold el_open. rewrite comment_off. fold name. destruct (grows_el_attrs c node (push_str c (c_lt :: name) st)) as [Y EY].
+    exists Y. rewrite EY, Hopen, <- app_assoc. reflexivity. }
   assert (Hlo : lvl (el_open c (x :: nm) node st) = D m) by (rewrite lvl_el_open; exact HL).
   set (st1 := el_open c (x :: nm) node st) in *.
   rewrite tree_events_eq in HE |- *. rewrite En in HE |- *. fold name in HE |- *.
@@ -732,16 +828,20 @@ Proof.
   - cbn [length]. rewrite Nat.add_1_r.
     destruct (LI_PL _ _ (S m) None Ho (Popen_none E _) (PL_push_str _ st1 good_self_close)) as [p' [H2 [_ Hn2]]].
     rewrite (Hn2 eq_refl) in H2. exact H2.
-  - specialize (Hnext eq_refl).
+  - specialize (Hnext eq_refl). specialize (fun a => Hal a eq_refl).
     set (kids := flat_map (tree_events c) (an_children node)) in *.
+    assert (HEk : E = (E0 ++ [SOpen name false]) ++ kids ++ ([SClose name] ++ E1)).
+    { rewrite HE. cbn [app]. rewrite <- !app_assoc. reflexivity. }
+    assert (Hlk : length (E0 ++ [SOpen name false]) = S m) by (rewrite app_length, <- Hm; cbn [length]; apply Nat.add_1_r).
     assert (HD1 : D (S m) = D m + 1).
     { pose proof (Dp_split E E0 [SOpen name false] (kids ++ [SClose name] ++ E1)) as G. cbn [length] in G.
       rewrite <- Hm, Nat.add_1_r in G. rewrite G; [reflexivity|]. rewrite HE. cbn [app]. rewrite <- app_assoc. reflexivity. }
     assert (HD2 : D (S m + length kids) = D (S m)).
-    { pose proof (Dp_split E (E0 ++ [SOpen name false]) kids ([SClose name] ++ E1)) as G.
-      rewrite app_length in G. cbn [length] in G. rewrite <- Hm, Nat.add_1_r in G. rewrite G.
-      - apply depth_forest.
-      - rewrite HE. cbn [app]. rewrite <- !app_assoc. reflexivity. }
+    { pose proof (Dp_split E (E0 ++ [SOpen name false]) kids ([SClose name] ++ E1) HEk) as G.
+      rewrite Hlk in G. rewrite G. apply depth_forest. }
+    assert (HD3 : forall t, (t <= length kids)%nat -> D (S m + t) >= D m + 1).
+    { intros t Ht. pose proof (Dp_prefix E (E0 ++ [SOpen name false]) kids ([SClose name] ++ E1) t HEk (nonneg_forest c _) Ht) as G.
+      rewrite Hlk in G. clear -G HD1. lia. }
     set (m2 := (S m + length kids)%nat) in *.
     destruct (LI_PL _ _ (S m) None Ho (Popen_none E _) (PL_push_str [c_gt] st1 eq_refl)) as [p0 [Hgt [_ Hn0]]].
     rewrite (Hn0 eq_refl) in Hgt. clear p0 Hn0.
@@ -750,7 +850,7 @@ Proof.
     assert (Hgi : get_indent c (Some node) = 1).
     { rewrite get_indent_wf; [cbn [named_opt]; rewrite En; reflexivity|]. cbn [pwf]. unfold nwf. rewrite En. reflexivity. }
     (* the content leaves a pending break that a closing tag may follow *)
-    assert (Hc : exists p', LI (el_content c (x :: nm) node next st2) m2 p' /\ PC m2 p').
+    assert (Hc : exists p', LI (el_content c (x :: nm) node next st2) m2 p' /\ PC m2 p' /\ (closes_own_line c node = false -> p' = None)).
     { unfold el_content. destruct (el_snippet c node next st2) as [st'|] eqn:Es.
       - destruct (el_snippet_some_inv node next st2 st' Es) as [v0 [value [ix [Ev [Ef Hne]]]]].
         destruct (snippet_ok_inv node v0 value ix Hsn Ev Hne Ef) as [Hcr Hfl].
@@ -764,35 +864,72 @@ Proof.
         destruct (exists_last Hne) as [l0 [xl El]].
         destruct (last_ctx node l0 xl El) as [Ht [Hlf Hlo']]. specialize (HQ l0 xl El). unfold Qn in HQ. rewrite Ht in HQ.
         destruct (should_format c (Some node) xl (length l0) (an_children node)) eqn:Efmt.
-        + exists pw. split; [apply Hend, Hfl, Hlf|]. rewrite HQ. apply PC_some.
-          cbn [is_snippet_opt]. unfold is_snippet. rewrite En. cbn [truthy_s negb andb]. reflexivity.
+        + exists pw. split; [apply Hend, Hfl, Hlf|]. split.
+          * rewrite HQ. apply PC_some.
+            cbn [is_snippet_opt]. unfold is_snippet. rewrite En. cbn [truthy_s negb andb]. reflexivity.
+          * unfold closes_own_line. rewrite Hlf. discriminate.
         + destruct HQ as [HQ1 HQ2]. rewrite Hlast in Hlo'. cbn [orb] in Hlo'. symmetry in Hlo'. specialize (HQ2 Hlo').
-          destruct (Hmore HQ1) as [p' [H3 [_ Hn3]]]. rewrite (Hn3 HQ2 Hcr) in H3. exists None. split; [exact H3|apply Pclose_none].
-      - destruct (LI_el_value node st2 (S m) Hgt) as [pv [Hv1 [Hv2 Hv3]]]; [rewrite Hl2; exact HD1|exact Hv|].
+          destruct (Hmore HQ1) as [p' [H3 [_ Hn3]]]. rewrite (Hn3 HQ2 Hcr) in H3. exists None. split; [exact H3|split; [apply Pclose_none|reflexivity]].
+      - destruct (LI_el_value node st2 (S m) Hgt) as [pv [Hv1 [Hv2 [Hv3 Hv4]]]]; [rewrite Hl2; exact HD1|exact Hv|].
         assert (Hlv : lvl (el_value c node st2) = D m) by (rewrite lvl_el_value; exact Hl2).
         destruct (no_children node) eqn:Enc.
         + assert (Ech : an_children node = []) by (unfold no_children in Enc; destruct (an_children node); [reflexivity|discriminate]).
           rewrite (Hnil Ech).
           assert (Em2 : m2 = S m) by (unfold m2, kids; rewrite Ech; cbn [flat_map length]; apply Nat.add_0_r). rewrite Em2.
-          apply (LI_el_leaf (x :: nm) node _ (S m) pv Hv1); [rewrite Hlv; exact HD1|exact Hv2|intros e _; apply Hv3, e].
+          destruct (LI_el_leaf (x :: nm) node _ (S m) pv Hv1) as [pl [Hl1 [Hl2' Hl3]]];
+            [rewrite Hlv; exact HD1|exact Hv2|intros e _; apply Hv3, e|].
+          exists pl. split; [exact Hl1|]. split; [exact Hl2'|].
+          unfold closes_own_line. rewrite Enc, En. unfold last_formatted. rewrite Ech. cbn [rev orb andb].
+          destruct (truthy_l (an_value node)) eqn:Etv.
+          * intros Hnn. apply Hl3; [apply Hv4, Hnn|left; reflexivity].
+          * intros Hnn. apply Hl3; [apply Hv3; reflexivity|right; exact Hnn].
         + assert (Hne : an_children node <> []) by (intros e; unfold no_children in Enc; rewrite e in Enc; discriminate).
           destruct (Hnext _ pv Hv1 Hv2) as [pw [Hw [_ HQ]]]; [rewrite Hlv, Hgi; exact HD1|].
           fold kids in Hw, HQ. fold m2 in Hw, HQ.
           destruct (exists_last Hne) as [l0 [xl El]].
           destruct (last_ctx node l0 xl El) as [Ht [Hlf Hlo']]. specialize (HQ l0 xl El). unfold Qn in HQ. rewrite Ht in HQ.
-          assert (Hpc : PC m2 pw).
+          assert (Hpc : PC m2 pw /\ (closes_own_line c node = false -> pw = None)).
           { destruct (should_format c (Some node) xl (length l0) (an_children node)) eqn:Efmt.
-            - rewrite HQ. apply PC_some. cbn [is_snippet_opt]. unfold is_snippet. rewrite En. cbn [truthy_s negb andb]. reflexivity.
-            - destruct HQ as [HQ1 HQ2]. rewrite Hlast in Hlo'. cbn [orb] in Hlo'. symmetry in Hlo'. rewrite (HQ2 Hlo'). apply Pclose_none. }
-          apply (LI_el_leaf (x :: nm) node _ m2 pw Hw); [|exact Hpc|].
+            - split; [rewrite HQ; apply PC_some; cbn [is_snippet_opt]; unfold is_snippet; rewrite En; cbn [truthy_s negb andb]; reflexivity|].
+              unfold closes_own_line. rewrite Hlf. discriminate.
+            - destruct HQ as [HQ1 HQ2]. rewrite Hlast in Hlo'. cbn [orb] in Hlo'. symmetry in Hlo'. rewrite (HQ2 Hlo').
+              split; [apply Pclose_none|reflexivity]. }
+          destruct Hpc as [Hpc Hpn].
+          destruct (LI_el_leaf (x :: nm) node _ m2 pw Hw) as [pl [Hl1 [Hl2' _]]]; [|exact Hpc| |].
           * rewrite Hk, Hlv, HD2. exact HD1.
-          * intros _ Hnc. rewrite Enc in Hnc. discriminate. }
-    destruct Hc as [pc [Hc1 Hc2]].
+          * intros _ Hnc. rewrite Enc in Hnc. discriminate.
+          * (* el_leaf does nothing when there are children *)
+            unfold el_leaf in Hl1 |- *. fold (no_children node) in Hl1 |- *. rewrite Enc, andb_false_r in Hl1 |- *.
+            exists pw. split; [exact Hl1 || (unfold LI in *; exact Hw)|]. split; [exact Hpc|exact Hpn]. }
+    destruct Hc as [pc [Hc1 [Hc2 Hc3]]].
     unfold el_close. rewrite comment_off. fold name.
     replace (m + length (SOpen name false :: kids ++ [SClose name]))%nat with (S m2)
-      by (cbn [length]; rewrite app_length; cbn [length]; unfold m2; lia).
+      by (cbn [length]; rewrite app_length; cbn [length]; unfold m2; clear; lia).
     unfold LI. rewrite ch_push_str, string_chunks_nocrlf by (rewrite !nocrlf_app, Nb; reflexivity).
-    cbn [app]. apply (Lines_close f E (O, None) _ m2 pc name Hc1 Hc2).
+    cbn [app]. apply (Lines_close f E APa [] (O, None) _ m2 pc name Hc1 Hc2).
+    (* alignment: the opening tag chunk of this element stands where the stream stood at [st] *)
+    intros k Hpk Hal'. cbn [app].
+    destruct Hgo as [B0 HB0].
+    assert (Hgc : exists B, fchunks (el_content c (x :: nm) node next st2) = fchunks st ++ CT false (c_lt :: name) :: B).
+    { destruct (grows_push_str c [c_gt] st1) as [Y1 EY1]. destruct (grows_el_content c (x :: nm) node next st2 Hgr) as [Y2 EY2].
+      exists (B0 ++ Y1 ++ Y2). rewrite EY2. unfold st2. rewrite EY1, HB0, <- !app_assoc. reflexivity. }
+    destruct Hgc as [B HB].
+    assert (Hcl : closes_own_line c node = true).
+    { destruct (closes_own_line c node); [reflexivity|]. rewrite (Hc3 eq_refl) in Hpk. discriminate. }
+    assert (Ek : k = D m) by (rewrite (Hc2 k Hpk); fold m2; rewrite HD2, HD1; clear; lia).
+    rewrite Ek.
+    apply (aligned_at_actual f E _ (fchunks st) (CT false (c_lt :: name)) B (D m) m (length kids) HB).
+    + symmetry. apply (LI_ntags st m p H).
+    + unfold ntags. cbn [flat_map chunk_tags]. rewrite Nt. reflexivity.
+    + pose proof (LI_ntags _ _ _ Hc1) as G. rewrite HB in G.
+      change (fchunks st ++ CT false (c_lt :: name) :: B) with (fchunks st ++ [CT false (c_lt :: name)] ++ B) in G.
+      rewrite !ntags_app, <- (LI_ntags st m p H) in G.
+      assert (G1 : ntags [CT false (c_lt :: name)] = 1%nat) by (unfold ntags; cbn [flat_map chunk_tags]; rewrite Nt; reflexivity).
+      rewrite G1 in G. unfold m2 in G. clear -G. lia.
+    + exact HD1.
+    + fold m2. rewrite HD2. exact HD1.
+    + exact HD3.
+    + apply Hal; assumption.
 Qed.
 
 (* ---------------------------------------------------------------- a text node *)
@@ -874,16 +1011,28 @@ Proof.
   intros Hn. rewrite Hn in H6. cbn [negb orb] in H6. apply andb_true_iff in H6. exact H6.
 Qed.
 
+Lemma line_of_entry parent node index items st :
+  should_format c parent node index items = true ->
+  line_of f (fchunks (entry c parent node index items st)) (lvl st + get_indent c parent).
+Proof.
+  intros Hf. right. rewrite (entry_chunks c parent node index items st Hf).
+  exists (fchunks st), [indent_chunk f (lvl st + get_indent c parent)], [].
+  split; [reflexivity|]. split; [left; reflexivity|].
+  intros s0 [Hin|[]]. unfold indent_chunk in Hin. discriminate.
+Qed.
+
 Lemma LI_html_step parent node index items next st p E0 E1 :
   depth_node c node = true -> pwf parent ->
+  (al = true -> align_here c parent node index items = true) ->
+  (parent = None -> index = O -> fchunks st = []) ->
   E = E0 ++ tree_events c node ++ E1 ->
   LI st (length E0) p -> PO (length E0) p -> D (length E0) = lvl st + get_indent c parent ->
-  keeps_lvl next -> (an_children node = [] -> forall s, next s = s) ->
+  keeps_lvl next -> grows_fn next -> (an_children node = [] -> forall s, next s = s) ->
   (forall m1, (exists Ea Eb, E = Ea ++ flat_map (tree_events c) (an_children node) ++ Eb /\ m1 = length Ea) -> next_ok node next m1) ->
   exists p', LI (html_element_step c parent node index items next st) (length E0 + length (tree_events c node)) p' /\
              Qn parent node index items (length E0 + length (tree_events c node)) p'.
 Proof.
-  intros Hd Hpw HE H Hp HD Hk Hnil Hnext.
+  intros Hd Hpw Hah Hfirst HE H Hp HD Hk Hgr Hnil Hnext.
   destruct (node_parts node Hd) as [Hg [Hs [Hw [Hv [Ha [Hnm _]]]]]].
   set (m := length E0) in *. set (m' := (m + length (tree_events c node))%nat).
   assert (HDm : D m' = D m) by (unfold m', m; rewrite (Dp_split E E0 _ E1 HE); apply depth_tree).
@@ -904,9 +1053,23 @@ Proof.
     - exists None. split; [|split; [apply Popen_none|reflexivity]].
       destruct (Hnm eq_refl) as [Hlast Hsn].
       apply (LI_el_named x nm node next st1 m p1 E0 E1); try assumption; try reflexivity.
-      intros Esc. apply Hnext. exists (E0 ++ [SOpen (tag_name c (x :: nm)) false]), ([SClose (tag_name c (x :: nm))] ++ E1).
-      split; [|rewrite app_length; cbn [length]; unfold m; lia].
-      rewrite HE, tree_events_eq, En, Esc. cbn [app]. rewrite <- !app_assoc. reflexivity.
+      + intros Esc. apply Hnext. exists (E0 ++ [SOpen (tag_name c (x :: nm)) false]), ([SClose (tag_name c (x :: nm))] ++ E1).
+        split; [|rewrite app_length; cbn [length]; unfold m; lia].
+        rewrite HE, tree_events_eq, En, Esc. cbn [app]. rewrite <- !app_assoc. reflexivity.
+      + (* the line on which the opening tag stands *)
+        intros Hal Esc Hcl. specialize (Hah Hal). unfold align_here in Hah. rewrite En, Esc, Hcl in Hah.
+        cbn [truthy_s negb orb] in Hah. apply orb_true_iff in Hah. destruct Hah as [Hf|Hf].
+        * rewrite HD. apply line_of_entry, Hf.
+        * apply andb_true_iff in Hf. destruct Hf as [Hf1 Hf2]. apply Nat.eqb_eq in Hf2.
+          destruct parent as [q|]; [discriminate|]. specialize (Hfirst eq_refl Hf2).
+          assert (Em : m = O) by (rewrite (LI_ntags st m p H), Hfirst; reflexivity).
+          left. unfold st1, entry.
+          assert (Efc : fchunks (if should_format c None node index items
+                                 then map_out (fun o => os_push_newline (oc_fmt c) o (Some None)) (map_out (fun o => os_add_level o (get_indent c None)) st)
+                                 else map_out (fun o => os_add_level o (get_indent c None)) st) = []).
+          { rewrite Hf2. destruct node as [nm0 v0 rp0 at0 ch0 sc0]. cbn [should_format].
+            destruct (negb (oc_format c)); cbn [Nat.eqb andb]; exact Hfirst. }
+          rewrite Efc. split; [intros s0 []|]. rewrite Em. reflexivity.
     - apply (LI_el_unnamed node next st1 m p1 E0 E1); try assumption; try reflexivity.
       + unfold truthy_s. rewrite En. reflexivity.
       + intros Ht. apply Hnext. exists E0, E1. split; [|reflexivity].
@@ -922,6 +1085,8 @@ Qed.
 Definition elem_spec (n : anode) : Prop :=
   depth_node c n = true ->
   forall parent index items st p E0 E1, pwf parent ->
+    (al = true -> align_node c parent n index items = true) ->
+    (parent = None -> index = O -> fchunks st = []) ->
     E = E0 ++ tree_events c n ++ E1 ->
     LI st (length E0) p -> PO (length E0) p -> D (length E0) = lvl st + get_indent c parent ->
     exists p', LI (html_element c parent n index items st) (length E0 + length (tree_events c n)) p' /\
@@ -935,8 +1100,13 @@ Proof.
   - symmetry. apply Nat.eqb_neq. destruct r; [contradiction|]. cbn [length]. lia.
 Qed.
 
+Lemma grows_nonempty st st' x : grows st st' -> fchunks st = x -> x <> [] -> fchunks st' <> [].
+Proof. intros [Y EY] <- Hne. rewrite EY. destruct (fchunks st); [contradiction|discriminate]. Qed.
+
 Lemma LI_html_walk parent items : pwf parent -> forall l pre st p E0 E1,
   items = pre ++ l -> Forall elem_spec l -> forallb (depth_node c) l = true ->
+  (al = true -> align_walk c parent items (length pre) l = true) ->
+  (parent = None -> pre = [] -> fchunks st = []) ->
   E = E0 ++ flat_map (tree_events c) l ++ E1 ->
   LI st (length E0) p -> PO (length E0) p -> D (length E0) = lvl st + get_indent c parent ->
   exists p', LI (html_walk c parent items (length pre) l st) (length E0 + length (flat_map (tree_events c) l)) p' /\
@@ -944,12 +1114,18 @@ Lemma LI_html_walk parent items : pwf parent -> forall l pre st p E0 E1,
              (forall l0 x, l = l0 ++ [x] ->
                 Qn parent x (length pre + length l0) items (length E0 + length (flat_map (tree_events c) l)) p').
 Proof.
-  intros Hpw. induction l as [|a r IH]; intros pre st p E0 E1 Hit HF Hd HE H Hp HD.
+  intros Hpw. induction l as [|a r IH]; intros pre st p E0 E1 Hit HF Hd Hal Hfirst HE H Hp HD.
   - exists p. cbn [html_walk flat_map length]. rewrite Nat.add_0_r. repeat split; try assumption.
     intros l0 x e. destruct l0; discriminate.
   - pose proof (Forall_inv HF) as Ha. pose proof (Forall_inv_tail HF) as HF'. cbn [forallb] in Hd. apply andb_true_iff in Hd. destruct Hd as [Hda Hdr].
     cbn [flat_map] in HE. rewrite <- app_assoc in HE.
-    destruct (Ha Hda parent (length pre) items st p E0 (flat_map (tree_events c) r ++ E1) Hpw HE H Hp HD) as [p1 [H1 HQ1]].
+    assert (Hal1 : al = true -> align_node c parent a (length pre) items = true).
+    { intros e. specialize (Hal e). cbn [align_walk] in Hal. apply andb_true_iff in Hal. apply Hal. }
+    assert (Hal2 : al = true -> align_walk c parent items (S (length pre)) r = true).
+    { intros e. specialize (Hal e). cbn [align_walk] in Hal. apply andb_true_iff in Hal. apply Hal. }
+    assert (Hf1 : parent = None -> length pre = O -> fchunks st = []).
+    { intros e1 e2. apply Hfirst; [exact e1|]. destruct pre; [reflexivity|discriminate]. }
+    destruct (Ha Hda parent (length pre) items st p E0 (flat_map (tree_events c) r ++ E1) Hpw Hal1 Hf1 HE H Hp HD) as [p1 [H1 HQ1]].
     cbn [html_walk flat_map]. rewrite app_length, Nat.add_assoc.
     destruct r as [|b r'].
     + exists p1. cbn [html_walk flat_map length]. rewrite Nat.add_0_r. split; [exact H1|]. split; [discriminate|].
@@ -960,48 +1136,70 @@ Proof.
       assert (HEa : E = Ea ++ flat_map (tree_events c) (b :: r') ++ E1) by (unfold Ea; rewrite <- app_assoc; exact HE).
       assert (Hla : length Ea = (length E0 + length (tree_events c a))%nat) by (unfold Ea; apply app_length).
       assert (Hit' : items = (pre ++ [a]) ++ b :: r') by (rewrite <- app_assoc; exact Hit).
-      destruct (IH (pre ++ [a]) (html_element c parent a (length pre) items st) p1 Ea E1 Hit' HF' Hdr HEa) as [p2 [H2 [_ HQ2]]].
+      assert (Hlp : length (pre ++ [a]) = S (length pre)) by (rewrite app_length; cbn [length]; lia).
+      destruct (IH (pre ++ [a]) (html_element c parent a (length pre) items st) p1 Ea E1 Hit' HF' Hdr) as [p2 [H2 [_ HQ2]]].
+      * rewrite Hlp. exact Hal2.
+      * intros _ e. destruct pre; discriminate.
+      * exact HEa.
       * rewrite Hla. exact H1.
       * rewrite Hla. exact Hp1.
       * rewrite Hla. unfold lvl. rewrite level_restored_lemma. fold (lvl st). rewrite <- HD.
         rewrite (Dp_split E E0 _ _ HE). apply depth_tree.
-      * rewrite app_length in H2, HQ2. cbn [length] in H2, HQ2. rewrite Nat.add_1_r, Hla in H2. rewrite Hla in HQ2.
+      * rewrite Hlp, Hla in H2. rewrite Hlp, Hla in HQ2.
         exists p2. split; [exact H2|]. split; [discriminate|].
         intros l0 x e. destruct l0 as [|y l0]; [discriminate|]. cbn [app] in e. injection e as <- e.
-        specialize (HQ2 l0 x e). cbn [length]. replace (length pre + S (length l0))%nat with (length pre + 1 + length l0)%nat by lia.
+        specialize (HQ2 l0 x e). cbn [length]. replace (length pre + S (length l0))%nat with (S (length pre) + length l0)%nat by lia.
         exact HQ2.
 Qed.
 
 Theorem LI_html_element : forall n, elem_spec n.
 Proof.
-  induction n as [nm v rp at_ ch sc IHch] using anode_ind'. intros Hd parent index items st p E0 E1 Hpw HE H Hp HD.
+  induction n as [nm v rp at_ ch sc IHch] using anode_ind'. intros Hd parent index items st p E0 E1 Hpw Hal Hfirst HE H Hp HD.
   set (node := ANode nm v rp at_ ch sc) in *.
   destruct (node_parts node Hd) as [_ [_ [Hw [_ [_ [_ Hkids]]]]]].
+  assert (Hal' : al = true -> align_here c parent node index items = true /\
+                               align_walk c (Some node) (an_children node) O (an_children node) = true).
+  { intros e. specialize (Hal e). rewrite align_node_eq in Hal. apply andb_true_iff in Hal. exact Hal. }
   rewrite html_element_unfold. apply (LI_html_step parent node index items _ st p E0 E1); try assumption.
+  - intros e. apply (Hal' e).
   - intros s. apply lvl_html_children.
+  - apply grows_html_children.
   - intros Ech s. rewrite html_children_walk, Ech. reflexivity.
   - intros m1 [Ea [Eb [HEk ->]]] st0 p0 H0 Hp0 HD0. rewrite html_children_walk.
-    apply (LI_html_walk (Some node) (an_children node) Hw (an_children node) [] st0 p0 Ea Eb eq_refl IHch Hkids HEk H0 Hp0 HD0).
+    apply (LI_html_walk (Some node) (an_children node) Hw (an_children node) [] st0 p0 Ea Eb eq_refl IHch Hkids); try assumption.
+    + intros e. apply (Hal' e).
+    + discriminate.
 Qed.
 
 (* ---------------------------------------------------------------- the whole abbreviation *)
-Theorem format_lines_indented forest :
-  E = flat_map (tree_events c) forest -> depth_dom c forest = true ->
-  lines_indented f E (fchunks (html_format c forest)).
+Lemma APa_mono P Z0 k : ntags Z0 = O -> APa (P ++ Z0) k -> APa P k.
+Proof. intros HZ H e. apply (aligned_at_mono f E P Z0 k HZ), H, e. Qed.
+
+Theorem format_lines_read forest :
+  E = flat_map (tree_events c) forest -> depth_dom c forest = true -> (al = true -> align_dom c forest = true) ->
+  forall pre t rest, fchunks (html_format c forest) = pre ++ CT true t :: rest ->
+    t = of_newline f ++ of_base_indent f /\
+    exists k more, indented f k rest more /\
+                   k = open_at E pre - (if starts_close more then 1 else 0) /\
+                   (starts_close more = true -> APa pre k).
 Proof.
-  intros HE Hd. rewrite html_format_walk.
+  intros HE Hd Hal. rewrite html_format_walk.
   assert (HF : Forall elem_spec forest) by (apply Forall_forall; intros n _; apply LI_html_element).
   assert (HE' : E = [] ++ flat_map (tree_events c) forest ++ []) by (rewrite app_nil_r; exact HE).
-  destruct (LI_html_walk None forest I forest [] (mkFs os_empty 1) None [] [] eq_refl HF Hd HE') as [p' [H1 [Hn HQ]]].
+  destruct (LI_html_walk None forest I forest [] (mkFs os_empty 1) None [] [] eq_refl HF Hd Hal) as [p' [H1 [Hn HQ]]];
+    try reflexivity; try assumption.
   - apply L_nil.
   - apply Popen_none.
-  - reflexivity.
-  - apply (Lines_lines_indented f E Hnl Hind _ _ H1). intros k Hk. cbn [fst snd] in *.
-    destruct forest as [|a r] eqn:Ef.
-    + rewrite (Hn eq_refl) in Hk. discriminate.
-    + assert (Hne : a :: r <> []) by discriminate. destruct (exists_last Hne) as [l0 [x El]].
-      specialize (HQ l0 x El). unfold Qn, tailb, tail_newline in HQ. rewrite !andb_false_r in HQ. cbn [andb] in HQ.
-      apply (proj1 HQ k Hk).
+  - intros pre t rest EX.
+    assert (Hfin : final_ok E (length (@nil sev) + length (flat_map (tree_events c) forest), p')%nat).
+    { intros k Hk. cbn [fst snd] in *.
+      destruct forest as [|a r] eqn:Ef.
+      - rewrite (Hn eq_refl) in Hk. discriminate.
+      - assert (Hne : a :: r <> []) by discriminate. destruct (exists_last Hne) as [l0 [x El]].
+        specialize (HQ l0 x El). unfold Qn, tailb, tail_newline in HQ. rewrite !andb_false_r in HQ. cbn [andb] in HQ.
+        apply (proj1 HQ k Hk). }
+    destruct (Lines_every_break f E APa Hnl Hind APa_mono _ _ _ _ H1 Hfin pre t rest EX) as [Ht [k [more [Hi [Hk Ha]]]]].
+    split; [exact Ht|]. exists k, more. split; [exact Hi|]. split; [exact Hk|exact Ha].
 Qed.
 End Depth.
 
@@ -1059,7 +1257,21 @@ Qed.
 Theorem indent_is_depth_full_lemma c forest :
   oc_format_skip c = [] -> cfg_depth c = true -> depth_dom c forest = true ->
   lines_indented (oc_fmt c) (flat_map (tree_events c) forest) (fchunks (html_format c forest)).
-Proof. intros Hs Hc Hd. exact (format_lines_indented c _ Hs Hc forest eq_refl Hd). Qed.
+Proof.
+  intros Hs Hc Hd pre t rest EX.
+  assert (Hal : false = true -> align_dom c forest = true) by discriminate.
+  destruct (format_lines_read c _ Hs Hc false forest eq_refl Hd Hal pre t rest EX) as [Ht [k [more [Hi [Hk _]]]]].
+  split; [exact Ht|]. exists k, more. split; assumption.
+Qed.
+
+Theorem close_aligned_full_lemma c forest :
+  oc_format_skip c = [] -> cfg_depth c = true -> depth_dom c forest = true -> align_dom c forest = true ->
+  lines_aligned (oc_fmt c) (flat_map (tree_events c) forest) (fchunks (html_format c forest)).
+Proof.
+  intros Hs Hc Hd Ha pre t rest EX.
+  destruct (format_lines_read c _ Hs Hc true forest eq_refl Hd (fun _ => Ha) pre t rest EX) as [_ [k [more [Hi [Hk Hal]]]]].
+  exists k, more. split; [exact Hi|]. split; [exact Hk|]. intros Hsc. apply (Hal Hsc eq_refl).
+Qed.
 
 (* ================================================================ the excluded shapes deviate on the model *)
 Definition dx_cfg : oconfig :=
